@@ -182,10 +182,13 @@ func (n *groupNode) Next() (bool, error) {
 					}
 
 					// We must hide all child documents after the offset plus limit
-					for i := childSelect.Limit.Limit + childSelect.Limit.Offset; i < l; i++ {
-						childDocs[i].Hidden = true
+					// (a limit of zero means no limit, as it does for a top level select)
+					if childSelect.Limit.Limit != 0 {
+						for i := childSelect.Limit.Limit + childSelect.Limit.Offset; i < l; i++ {
+							childDocs[i].Hidden = true
 
-						n.execInfo.hiddenAfterLimit++
+							n.execInfo.hiddenAfterLimit++
+						}
 					}
 				}
 			}
